@@ -567,6 +567,7 @@ def make_recipes(ctx):
         else:
             zs = [rng.randint(1, 103) for _ in range(n)]
         atoms, lst = [], []
+        extra_cols = (0, 0, 0, 1, 3)[i % 5]          # further per-atom columns after x y z (a charge, a force vector)
         for z in zs:
             c = []
             for _ in range(3):
@@ -582,7 +583,9 @@ def make_recipes(ctx):
                     f //= 10
                     need -= 1
                 nd.append(rng.randint(need, 12) if need > 0 or rng.random() < 0.5 else 0)
-            lst.append({"cs": rng.randint(1, 4), "lead": blanks(0, 3), "trail": blanks(0, 3),
+            lst.append({"cs": rng.randint(1, 4), "lead": blanks(0, 3),
+                        "trail": blanks(0, 3) if (extra_cols == 0 or rng.random() < 0.3) else
+                                 "".join(blanks(1, 3) + rng.choice(["0.1250", "-3", "+0.5", "12.75", "-0.0031", "7"]) for _ in range(extra_cols)),
                         "sep": [blanks(1, 5) for _ in range(3)], "plus": [rng.random() < 0.3 for _ in range(3)], "nd": nd})
         style = {"clead": blanks(0, 2), "ctrail": blanks(0, 2), "finalnl": rng.random() < 0.5, "lines": lst}
         recipes.append({"k": "xyz_spell", "atoms": atoms, "comment": rng.choice(["", "comment line", "  12 Ab x", "H2O"]),
